@@ -506,7 +506,9 @@ func Read(r io.Reader) (*Font, error) {
 		}
 		info.Gpos = &gtab.Info{
 			ScriptList: map[language.Tag]*gtab.Features{
-				language.MustParse("und-Zzzz"): {Required: 0, Optional: []gtab.FeatureIndex{}},
+				// "und-Zzzz-x-dflt" is the tag under which gtab.Read files the
+				// DFLT script, so that the table survives a write/read cycle.
+				language.MustParse("und-Zzzz-x-dflt"): {Required: 0, Optional: []gtab.FeatureIndex{}},
 			},
 			FeatureList: []*gtab.Feature{
 				{Tag: "kern", Lookups: []gtab.LookupIndex{0}},
